@@ -223,13 +223,10 @@ impl SimdStringOps {
             }
         }
         
-        // Handle remaining bytes
+        // Handle the remainder exactly like the portable implementation (8-byte words, then
+        // single bytes): the hash of a string must not depend on the CPU tier
         let remaining_start = chunks * 32;
-        for &byte in &bytes[remaining_start..] {
-            hash = hash.rotate_left(5).wrapping_add(byte as u64);
-        }
-        
-        hash
+        self.scalar_string_hash(&bytes[remaining_start..], hash)
     }
 
     // =============================================================================
@@ -283,13 +280,10 @@ impl SimdStringOps {
             }
         }
         
-        // Handle remaining bytes
+        // Handle the remainder exactly like the portable implementation (8-byte words, then
+        // single bytes): the hash of a string must not depend on the CPU tier
         let remaining_start = chunks * 16;
-        for &byte in &bytes[remaining_start..] {
-            hash = hash.rotate_left(5).wrapping_add(byte as u64);
-        }
-        
-        hash
+        self.scalar_string_hash(&bytes[remaining_start..], hash)
     }
 
     // =============================================================================
@@ -344,13 +338,10 @@ impl SimdStringOps {
             }
         }
         
-        // Handle remaining bytes
+        // Handle the remainder exactly like the portable implementation (8-byte words, then
+        // single bytes): the hash of a string must not depend on the CPU tier
         let remaining_start = chunks * 64;
-        for &byte in &bytes[remaining_start..] {
-            hash = hash.rotate_left(5).wrapping_add(byte as u64);
-        }
-        
-        hash
+        self.scalar_string_hash(&bytes[remaining_start..], hash)
     }
 
     // =============================================================================
